@@ -140,3 +140,10 @@ class LruSim:
                 self.touch(o[1])
         elif t == "take_race":
             self.touch(o[1])
+        elif t == "take_nested":
+            if self.has(o[1]):
+                self.touch(o[1])
+            else:
+                self.touch(o[3])
+                if o[2] is not None:
+                    self.touch(o[1])
